@@ -19,6 +19,9 @@ DECLS = ((H + "trx_if.h", "define TRX[CD]_BUF_SIZE"), (H + "trx_if.h", "enum trx
 INCLUDES = ("src/host/trxcon/include",)
 HYPERFRAME = 2715648
 ACCEPTED_BURST_PARTS = (148, 150, 444, 446)
+# the largest datagram of the statement's quantifier that reaches trx_data_rx_cb: TRXD version 0 towards L1 = 8 header octets + the longest
+# version-0 burst (8-PSK, 444 soft bits; spec/valid_msg.py MOD_TABLE) + the two legacy padding octets
+LARGEST_VALID_RX_DATAGRAM = 8 + max(ACCEPTED_BURST_PARTS)
 
 
 def s8(x):
@@ -141,7 +144,11 @@ class TrxDataRxCb(Contract):
         P = n - 8
         fn = d["fn"]
         ok = z3.And(n >= 8, octet(0) / 16 == 0, L.in_set(P, ACCEPTED_BURST_PARTS), fn < HYPERFRAME)
-        posts = [("indications_iff_accepted", z3.If(ok, z3.BoolVal(len(inds) == 1 and len(rts) == 1), z3.BoolVal(len(inds) == 0 and len(rts) == 0)))]
+        # the contract above speaks about the octets read() returned; that they ARE the datagram on the socket needs the call to ask for enough:
+        # a datagram longer than the count is truncated by the socket layer (that count octets fit the buffer is the memory obligation
+        # read.buf.valid_for_length of the call)
+        posts = [("reads_with_room_for_the_largest_valid_datagram", g["count"] >= LARGEST_VALID_RX_DATAGRAM),
+                 ("indications_iff_accepted", z3.If(ok, z3.BoolVal(len(inds) == 1 and len(rts) == 1), z3.BoolVal(len(inds) == 0 and len(rts) == 0)))]
         if len(inds) == 1:
             bi = inds[0]
             posts += [("ind.tn", bi["tn"] == d["tn"]), ("ind.fn", bi["fn"] == fn), ("ind.toa256", bi["toa256"] == d["toa256"]),
